@@ -45,9 +45,7 @@ Definition structs_of (su : SourceUnit) : list ((N * N) * list N) :=
 
 (* the verdict `reported` for the sizes l respects the three clauses of the property *)
 Definition clause_ok (l : list N) (reported : bool) : bool :=
-  if negb (all_size_ok l) then true
-  else if Nat.leb (List.length l) 6 then verdict_ok l reported
-  else if reported then (total l + 255) / 256 <? slots_spec l else negb (both_sorts_better l).
+  if negb (all_size_ok l) then true else clause_check l reported.
 
 Definition cands_ok (cands : list ((N * N) * list N)) (impl : list (N * N)) : bool :=
   forallb (fun c => clause_ok (snd c) (mem_pair (fst c) impl)) cands &&
@@ -68,3 +66,17 @@ Definition stats_pack (su : SourceUnit) : N * N * N * N * N * N :=
   let big := fun c : (N * N) * list N => Nat.leb 2 (List.length (snd c)) in
   let rep := fun c : (N * N) * list N => match can_be_packed (snd c) with Ok true => true | _ => false end in
   (len cs, len (filter big cs), len (filter rep cs), len ss, len (filter big ss), len (filter rep ss)).
+
+(* ------------------------------------------------------------------ type sizes: the list of
+   type expressions of `vh_digest types`, in the same order *)
+Definition L0 : Loc := Loc_File 0 0 0.
+Definition type_ns : list N := map N.of_nat (seq 0 265) ++ [65535].
+Definition type_cases : list Expression :=
+  map (Expression_Type L0) [Ty_Bool; Ty_Address; Ty_AddressPayable; Ty_Payable; Ty_String; Ty_DynamicBytes; Ty_Rational] ++
+  map (fun n => Expression_Type L0 (Ty_Uint n)) type_ns ++
+  map (fun n => Expression_Type L0 (Ty_Int n)) type_ns ++
+  map (fun n => Expression_Type L0 (Ty_Bytes (N.of_nat n))) (seq 0 256) ++
+  [Expression_Type L0 (Ty_Mapping L0 (Expression_Type L0 (Ty_Uint 8)) (Expression_Type L0 Ty_Bool));
+   Expression_Type L0 (Ty_Function [] [] None);
+   Expression_Variable (Mk_Identifier L0 "v0"%string)].
+Definition type_size_answers : list N := map get_type_size type_cases.
